@@ -3,7 +3,11 @@ import Qryn.Proofs.InternalOpt
 import Qryn.Proofs.InternalJsonPath
 import Qryn.Proofs.InternalParams
 import Qryn.Proofs.InternalCompose
+import Qryn.Proofs.InternalEndToEnd
+import Qryn.Proofs.InternalPathSyntax
+import Qryn.Proofs.InternalMetricBridge
 import Qryn.Read.JsonPathSyntax
+import Qryn.LogQL.PostMetric
 import Qryn.Gen.InternalPlanner
 import Qryn.Gen.InternalParams
 import Qryn.Gen.PlannerGlobals
@@ -129,9 +133,9 @@ theorem batching_invariant_metricPlan (E : Env V) (c : Read.Ctx) (p : Plan V) (h
       rw [batching_invariant_aggregator, hst, ← batching_invariant_aggregator]
     simp only [runPlan, hk, this]
   | unwrap fn =>
-    have : run E.num (aggOps E.num c.maxSeries (Grid.of c.fromNs c.toNs dur) (unwrapAggFn E.num dur fn)) []
+    have : run E.num (aggOps E.num c.maxSeries (Grid.of c.fromNs c.toNs dur) (unwrapAggFn E.num dur (dirFn c.orderAsc fn))) []
           (runByWithout E p.aggBy (runStages E p.stages bs)) =
-        run E.num (aggOps E.num c.maxSeries (Grid.of c.fromNs c.toNs dur) (unwrapAggFn E.num dur fn)) []
+        run E.num (aggOps E.num c.maxSeries (Grid.of c.fromNs c.toNs dur) (unwrapAggFn E.num dur (dirFn c.orderAsc fn))) []
           (runByWithout E p.aggBy (runStages E p.stages [bs.flatten])) := by
       rw [batching_invariant_aggregator, hbw, ← batching_invariant_aggregator]
     simp only [runPlan, hk, this]
@@ -155,17 +159,21 @@ theorem stage_meets_logql_parser (E : Env V) (k : ParserKind) (es : List (Entry 
     (hp : ∀ e ∈ es, e.err = none) : stageFlat E (.parser k) es = parserStage E k es := parser_meets_all E k es hp
 
 /-- **`| json n₁="p₁", n₂="p₂", …`, general case**: any number of parameters, names that repeat, names of
-    existing stream labels, paths that are prefixes of each other, array indexes, keys occurring twice, documents
-    that are malformed anywhere. What `jsonPathProcessor` leaves in the label map is `jsonPathLabels`: go through
-    the scalars of the document in document order up to the point where the decoder fails; a scalar whose address
-    (keys and indexes from the root) is the path of a parameter sets that parameter's label to its value,
-    overwriting what was there (for several such parameters: in parameter order). Hence a name used by several
-    parameters ends with the value that comes last *in the document* (not in the parameter list), a parameter
-    named like a stream label replaces it, and labels no parameter reaches stay as they were. -/
+    existing stream labels, paths that are prefixes of each other, array indexes, keys occurring twice, lines that are
+    no JSON document. What `jsonWithParams` leaves in the label map is `jsonPathLabels`: **every named label is set**.
+    On a line that is one readable JSON document, go through the values of the document in document order (an object
+    or an array before its members); a value whose address (keys and indexes from the root) is the path of a parameter
+    gives that parameter's label its text — the content of a string, the source text of a number / true / false /
+    null, the JSON text of an object or an array. Hence a name used by several parameters ends with the value that
+    comes last *in the document* (not in the parameter list). A parameter no value was found for sets its label to the
+    empty string, also when a stream label has that name; on a line that is not one JSON document (`jx.Valid` says no,
+    e.g. text after the document) every named label becomes the empty string. This is what the ClickHouse planner's
+    `mapUpdate(labels, mapFromArrays(names, [JSONExtract…]))` does for the same stage (`engines_agree_jsonParams`). -/
 theorem stage_meets_logql_jsonParams (E : Env V) (ps : List Ahead) (es : List (Entry V))
     (hp : ∀ e ∈ es, e.err = none) :
     stageFlat E (.parser (.jsonParams ps)) es =
-      es.map (fun e => relabel E e (jsonPathLabels ps (E.jsonDecode e.msg) e.labels)) :=
+      es.map (fun e => relabel E e
+        (jsonPathLabels (E.jsonValid e.msg && !hasBad (E.jsonDecode e.msg)) ps (E.jsonDecode e.msg) e.labels)) :=
   parser_meets_all E (.jsonParams ps) es hp
 
 /-- **`| logfmt n₁="k₁", …`**: the map `ParserPlanner.Process` fills from the parameters (first path segment ↦
@@ -178,29 +186,81 @@ theorem stage_meets_logql_logfmtParams (E : Env V) (ps : List Ahead) (es : List 
       es.map (fun e => relabel E e (logfmtParamLabels ps (E.logfmtDecode e.msg) e.labels)) :=
   parser_meets_all E (.logfmtParams ps) es hp
 
-/-- one parameter, a document read to the end: the general definition is the reading by lookup — the label is the
-    scalar the path leads to (for a key that occurs twice the last occurrence leading to a scalar), other labels
-    untouched. -/
-theorem jsonParam_single_is_lookup (n : Bytes) (p : List PathSeg) (doc : JVal) (l : Labels) (hb : hasBad doc = false) :
-    jsonPathLabels [(n, p)] doc l = (match lookupPath doc p with | some v => l.set n v | none => l) := by
-  rw [← jsonParams_meets, jsonParams_single n p doc l hb]
-  simp only [jsonParamLabels, List.foldl_cons, List.foldl_nil]
-  cases lookupPath doc p <;> rfl
+/-- one parameter: the general definition is the reading by lookup — the label is the text the path leads to (for a
+    key that occurs twice the last occurrence that leads somewhere), "" when it leads nowhere or the line is not a
+    readable document; other labels untouched. -/
+theorem jsonParam_single_is_lookup (readable : Bool) (n : Bytes) (p : List PathSeg) (doc : JVal) (l : Read.Labels) :
+    jsonPathLabels readable [(n, p)] doc l = l.set n (if readable then (lookupPath doc p).getD [] else []) := by
+  rw [jsonParams_distinct_lookup readable [(n, p)] (by simp) doc l]
+  rfl
 
-/-- **parameters with pairwise different names, a document read to the end**: the general definition coincides with
-    the reading by lookup — every parameter's label is the scalar `lookupPath` finds for its path, whatever the
-    order of the parameters and of the members of the document (`jsonParamLabels` goes through the parameters in
-    order; the engine goes through the document). -/
-theorem jsonParams_distinct_is_lookup (ps : List Ahead) (hd : (ps.map (·.1)).Nodup) (doc : JVal) (hb : hasBad doc = false)
-    (l : Labels) : jsonPathLabels ps doc l = jsonParamLabels ps doc l := jsonParams_distinct_lookup ps hd doc hb l
+/-- **parameters with pairwise different names**: the general definition coincides with the reading by lookup —
+    every parameter's label is the text `lookupPath` finds for its path ("" when nothing), whatever the order of the
+    parameters and of the members of the document (`jsonParamLabels` goes through the parameters in order; the engine
+    goes through the document). -/
+theorem jsonParams_distinct_is_lookup (readable : Bool) (ps : List Ahead) (hd : (ps.map (·.1)).Nodup) (doc : JVal)
+    (l : Read.Labels) : jsonPathLabels readable ps doc l = jsonParamLabels readable ps doc l :=
+  jsonParams_distinct_lookup readable ps hd doc l
+
+/-- following a path finds the LAST value of the document (document order, a composite before its members) that has
+    this address: the recursive reading and the document-order reading are the same function -/
+theorem lookup_is_last_value_at_path (n : Bytes) (p : List PathSeg) (doc : JVal) :
+    jsonPathFound [(n, p)] doc = (match lookupPath doc p with | some v => [(n, v)] | none => []) := by
+  rw [jsonPathFound_single]
+  cases lookupPath doc p <;> rfl
 
 /-- the hypothesis "different names" is needed: `p="a", p="b"` on `{"b":"1","a":"2"}` gives `p=2` (the later member of
     the document), the parameter-order reading would give `p=1` -/
 theorem jsonParams_repeated_name_document_order :
-    let doc := JVal.obj (.cons [98] (.str [49]) (.cons [97] (.str [50]) .nil))
+    let doc := JVal.obj [] (.cons [98] (.str [49]) (.cons [97] (.str [50]) .nil))
     let ps : List Ahead := [([112], [.key [97]]), ([112], [.key [98]])]
-    jsonParams ps doc [] = [([112], [50])] ∧ jsonPathLabels ps doc [] = [([112], [50])] ∧
-    jsonParamLabels ps doc [] = [([112], [49])] := by decide
+    jsonParams true ps doc [] = [([112], [50])] ∧ jsonPathLabels true ps doc [] = [([112], [50])] ∧
+    jsonParamLabels true ps doc [] = [([112], [49])] := by decide
+
+/-- **`JsonPathParamToTypedArray`, exact characterisation** (on the texts of the modelled token syntax): the model returns a
+    typed path exactly for the texts whose tokens the grammar of path_parser.go derives — `Path = Part+`,
+    `Part = "."? Ident | "[" (String | RawString) "]" | "[" Int "]"`, as the derivation relation `Read.Parts` — and the
+    path is the one the derivation denotes (identifier / unquoted string ↦ key, integer ↦ index); every other text of the
+    fragment is a parse error, texts outside the fragment are `outside` (reported apart by the `path` stream, which runs
+    the real parser on the same texts). The grammar is unambiguous: the typed path is a function of the text. -/
+theorem parsePath_characterised (text : Bytes) (p : List PathSeg) :
+    parsePath text = .ok p ↔ ∃ ts, ptoks text.length text = some ts ∧ Parts ts p ∧ p ≠ [] := by
+  unfold parsePath
+  cases ht : ptoks text.length text with
+  | none => simp
+  | some ts =>
+    simp only [Option.some.injEq, exists_eq_left']
+    cases hp : pparts ts [] with
+    | none =>
+      constructor
+      · intro h; cases h
+      · intro h
+        have := (pparts_iff ts p).mpr h
+        rw [hp] at this
+        cases this
+    | some q =>
+      constructor
+      · intro h
+        have hq : q = p := PathParse.ok.inj h
+        subst hq
+        exact (pparts_iff ts q).mp hp
+      · intro h
+        have := (pparts_iff ts p).mpr h
+        rw [hp] at this
+        rw [Option.some.inj this]
+
+/-- **round trip**: every non-empty typed path — keys of printable ASCII without `"`, `\`, `` ` ``, indexes below 10¹⁸ —
+    is written by the parameter text `printPath p` (`["key"][7]…`), and the parser reads exactly `p` back: the parser is
+    onto the typed paths the in-process walk (`jppVal`) and the ClickHouse planner (`toJArg`) are defined on -/
+theorem parsePath_roundtrip (p : List PathSeg) (hne : p ≠ []) (hp : ∀ s ∈ p, SegOk s) :
+    parsePath (printPath p) = .ok p := parsePath_printPath p hne hp
+
+/-- `["a b"][10][0]` -/
+example : printPath [.key [97, 32, 98], .idx 10, .idx 0] = [91, 34, 97, 32, 98, 34, 93, 91, 49, 48, 93, 91, 48, 93] ∧
+    parsePath (printPath [.key [97, 32, 98], .idx 10, .idx 0]) = .ok [.key [97, 32, 98], .idx 10, .idx 0] := by
+  constructor
+  · decide
+  · decide
 
 /-- which parsers the in-process engine has: `json` and `logfmt`; `regexp`, `pattern`, `unpack` are answered
     `NotSupported` (the switch of `ParserPlanner.Process`, regenerated) -/
@@ -235,9 +295,9 @@ theorem stage_meets_logql_comparison (N : NumOps V) (op : CmpOp) (v : V) (es : L
     proper entries whose fingerprints identify their label sets and whose series fit under the cap, the bucket
     arrays yield exactly one sample per series and non-empty window `[start + i·d, start + (i+1)·d)`, `i < n`,
     with the LogQL value of the entries of that series in that window. -/
-theorem stage_meets_logql_rangeAgg (N : NumOps V) (maxSeries : Nat) (g : Grid) (dur : Int) (fn : RangeFn)
+theorem stage_meets_logql_rangeAgg (N : NumOps V) (maxSeries : Nat) (g : Grid) (dur : Int) (fn : Read.RangeFn)
     (hfn : rangeCounts fn = true) (bs : Batches V) (hp : ∀ e ∈ bs.flatten, e.err = none)
-    (hcap : (firstBy (fun e : Entry V => e.fp) bs.flatten).length ≤ maxSeries) (hf : FpFaithful bs.flatten) :
+    (hcap : (Stages.firstBy (fun e : Entry V => e.fp) bs.flatten).length ≤ maxSeries) (hf : FpFaithful bs.flatten) :
     run N (aggOps N maxSeries g (lraFn N dur fn)) [] bs =
       aggregate (fun e : Entry V => e.labels) g (rangeValue N dur fn) bs.flatten := by
   rw [run_aggOps N maxSeries g _ (lraFn_counts N dur fn hfn) bs hp hcap,
@@ -246,11 +306,11 @@ theorem stage_meets_logql_rangeAgg (N : NumOps V) (maxSeries : Nat) (g : Grid) (
 
 /-- **unwrapped range aggregation** (`sum/avg/min/max/first/last_over_time`, `rate` of an unwrapped value):
     `min_over_time` is the minimum, `first_over_time` the value of the first entry, also when it is 0. -/
-theorem stage_meets_logql_unwrapAgg (N : NumOps V) (maxSeries : Nat) (g : Grid) (dur : Int) (fn : UnwrapFn)
+theorem stage_meets_logql_unwrapAgg (N : NumOps V) (maxSeries : Nat) (g : Grid) (dur : Int) (fn : Read.UnwrapFn)
     (hfn : unwrapCounts fn = true) (bs : Batches V) (hp : ∀ e ∈ bs.flatten, e.err = none)
-    (hcap : (firstBy (fun e : Entry V => e.fp) bs.flatten).length ≤ maxSeries) (hf : FpFaithful bs.flatten) :
+    (hcap : (Stages.firstBy (fun e : Entry V => e.fp) bs.flatten).length ≤ maxSeries) (hf : FpFaithful bs.flatten) :
     run N (aggOps N maxSeries g (unwrapAggFn N dur fn)) [] bs =
-      aggregate (fun e : Entry V => e.labels) g (unwrapValue N dur fn) bs.flatten := by
+      aggregate (fun e : Entry V => e.labels) g (Stages.unwrapValue N dur fn) bs.flatten := by
   rw [run_aggOps N maxSeries g _ (unwrapAggFn_counts N dur fn hfn) bs hp hcap,
     aggregate_value_congr _ g _ _ (fun l hl => unwrap_value N dur fn l hl hfn),
     aggregate_key_congr (fun e : Entry V => e.fp) (fun e : Entry V => e.labels) g _ _ hf]
@@ -258,12 +318,81 @@ theorem stage_meets_logql_unwrapAgg (N : NumOps V) (maxSeries : Nat) (g : Grid) 
 /-- **vector aggregation** (`sum/min/max/avg/count by|without`), after `by/without` has cut the labels -/
 theorem stage_meets_logql_vectorAgg (N : NumOps V) (maxSeries : Nat) (g : Grid) (fn : VecFn)
     (bs : Batches V) (hp : ∀ e ∈ bs.flatten, e.err = none)
-    (hcap : (firstBy (fun e : Entry V => e.fp) bs.flatten).length ≤ maxSeries) (hf : FpFaithful bs.flatten) :
+    (hcap : (Stages.firstBy (fun e : Entry V => e.fp) bs.flatten).length ≤ maxSeries) (hf : FpFaithful bs.flatten) :
     run N (aggOps N maxSeries g (vecFn N fn)) [] bs =
       aggregate (fun e : Entry V => e.labels) g (vecValue N fn) bs.flatten := by
   rw [run_aggOps N maxSeries g _ (vecFn_counts N fn) bs hp hcap,
     aggregate_value_congr _ g _ _ (fun l hl => vec_value N fn l hl),
     aggregate_key_congr (fun e : Entry V => e.fp) (fun e : Entry V => e.labels) g _ _ hf]
+
+/-- the order in which the ClickHouse part of a split script delivers its rows: ORDER BY timestamp_ns in the direction of the
+    request — ascending when `direction=forward` (`ctx.OrderASC`), descending otherwise (the default) -/
+def TsOrdered (asc : Bool) (l : List (Entry V)) : Prop :=
+  l.Pairwise (fun a b => if asc then a.ts ≤ b.ts else b.ts ≤ a.ts)
+
+theorem getLast_val_map (N : NumOps V) (l : List (Entry V)) (hl : l ≠ []) :
+    ((l.map (·.val)).getLast?).getD N.zero = (l.getLast hl).val := by
+  rw [List.getLast?_map, List.getLast?_eq_some_getLast hl]
+  rfl
+
+/-- **`first_over_time` is the value of an earliest entry of the window, whatever the direction of the request** (after
+    the `fix:`: with the default direction the rows arrive newest first and the function used to return the value of
+    the *latest* entry; ClickHouse computes `argMin(value, timestamp_ns)`). Among entries with the same least timestamp
+    the choice is open on both engines. -/
+theorem first_over_time_is_earliest (N : NumOps V) (d : Int) (asc : Bool) (l : List (Entry V)) (hl : l ≠ [])
+    (hs : TsOrdered asc l) :
+    ∃ e ∈ l, Stages.unwrapValue N d (dirFn asc .firstOverTime) l = e.val ∧ ∀ x ∈ l, e.ts ≤ x.ts := by
+  cases asc with
+  | true =>
+    cases l with
+    | nil => exact absurd rfl hl
+    | cons e rest =>
+      refine ⟨e, List.mem_cons_self, rfl, ?_⟩
+      intro x hx
+      rcases List.mem_cons.mp hx with h | h
+      · rw [h]; exact Int.le_refl _
+      · have := (List.pairwise_cons.mp hs).1 x h
+        simpa using this
+  | false =>
+    refine ⟨l.getLast hl, List.getLast_mem hl, ?_, ?_⟩
+    · simp only [dirFn, Bool.false_eq_true, if_false, Stages.unwrapValue]
+      exact getLast_val_map N l hl
+    · intro x hx
+      have hsplit := List.dropLast_concat_getLast hl
+      rw [← hsplit] at hx hs
+      rcases List.mem_append.mp hx with h | h
+      · have := (List.pairwise_append.mp hs).2.2 x h (l.getLast hl) (by simp)
+        simpa using this
+      · simp only [List.mem_singleton] at h
+        rw [h]; exact Int.le_refl _
+
+/-- **`last_over_time` is the value of a latest entry of the window** (ClickHouse: `argMax(value, timestamp_ns)`) -/
+theorem last_over_time_is_latest (N : NumOps V) (d : Int) (asc : Bool) (l : List (Entry V)) (hl : l ≠ [])
+    (hs : TsOrdered asc l) :
+    ∃ e ∈ l, Stages.unwrapValue N d (dirFn asc .lastOverTime) l = e.val ∧ ∀ x ∈ l, x.ts ≤ e.ts := by
+  cases asc with
+  | false =>
+    cases l with
+    | nil => exact absurd rfl hl
+    | cons e rest =>
+      refine ⟨e, List.mem_cons_self, rfl, ?_⟩
+      intro x hx
+      rcases List.mem_cons.mp hx with h | h
+      · rw [h]; exact Int.le_refl _
+      · have := (List.pairwise_cons.mp hs).1 x h
+        simpa using this
+  | true =>
+    refine ⟨l.getLast hl, List.getLast_mem hl, ?_, ?_⟩
+    · simp only [dirFn, if_true, Stages.unwrapValue]
+      exact getLast_val_map N l hl
+    · intro x hx
+      have hsplit := List.dropLast_concat_getLast hl
+      rw [← hsplit] at hx hs
+      rcases List.mem_append.mp hx with h | h
+      · have := (List.pairwise_append.mp hs).2.2 x h (l.getLast hl) (by simp)
+        simpa using this
+      · simp only [List.mem_singleton] at h
+        rw [h]; exact Int.le_refl _
 
 /-- **any sequence of the modelled stages** (line filter, label filter, the four parser forms, label_format,
     line_format, drop, unwrap) is the LogQL definition applied stage by stage — induction over the stage list -/
@@ -324,11 +453,11 @@ theorem metricPlan_meets_logql (E : Env V) (h0 : E.o.isNum [] = false) (c : Read
   -- the range aggregation
   have hrange : (match k with
       | .range fn => run E.num (aggOps E.num c.maxSeries (Grid.of c.fromNs c.toNs dur) (lraFn E.num dur fn)) [] (runStages E p.stages bs)
-      | .unwrap fn => run E.num (aggOps E.num c.maxSeries (Grid.of c.fromNs c.toNs dur) (unwrapAggFn E.num dur fn)) []
+      | .unwrap fn => run E.num (aggOps E.num c.maxSeries (Grid.of c.fromNs c.toNs dur) (unwrapAggFn E.num dur (dirFn c.orderAsc fn))) []
           (runByWithout E p.aggBy (runStages E p.stages bs))) =
       (match k with
       | .range fn => if rangeCounts fn then aggregate (·.labels) (Grid.of c.fromNs c.toNs dur) (rangeValue E.num dur fn) (stages E p.stages bs.flatten) else []
-      | .unwrap fn => if unwrapCounts fn then aggregate (·.labels) (Grid.of c.fromNs c.toNs dur) (unwrapValue E.num dur fn)
+      | .unwrap fn => if unwrapCounts fn then aggregate (·.labels) (Grid.of c.fromNs c.toNs dur) (Stages.unwrapValue E.num dur (dirFn c.orderAsc fn))
           (optByWithout E p.aggBy (stages E p.stages bs.flatten)) else []) := by
     cases k with
     | range fn =>
@@ -357,7 +486,9 @@ theorem metricPlan_meets_logql (E : Env V) (h0 : E.o.isNum [] = false) (c : Read
           exact hsp x hx
       by_cases hfn : unwrapCounts fn = true
       · simp only [hfn, if_true]
-        rw [stage_meets_logql_unwrapAgg E.num c.maxSeries _ dur fn hfn _ hprop' (by rw [hbw]; exact hcap) (by rw [hbw]; exact hf), hbw]
+        have hfn' : unwrapCounts (dirFn c.orderAsc fn) = true := by
+          cases fn <;> cases c.orderAsc <;> simp [dirFn, unwrapCounts] at hfn ⊢
+        rw [stage_meets_logql_unwrapAgg E.num c.maxSeries _ dur (dirFn c.orderAsc fn) hfn' _ hprop' (by rw [hbw]; exact hcap) (by rw [hbw]; exact hf), hbw]
       · have hfo : fn = .other := by cases fn <;> simp [unwrapCounts] at hfn ⊢
         subst hfo
         simp only [unwrapCounts, Bool.false_eq_true, if_false]
@@ -389,7 +520,7 @@ theorem metricPlan_meets_logql (E : Env V) (h0 : E.o.isNum [] = false) (c : Read
     rw [hbw] at hvec
     have hrr : rangeResult E c p bs.flatten = optCompare E.num p.aggCmp (match k with
       | .range fn => if rangeCounts fn then aggregate (·.labels) (Grid.of c.fromNs c.toNs dur) (rangeValue E.num dur fn) (stages E p.stages bs.flatten) else []
-      | .unwrap fn => if unwrapCounts fn then aggregate (·.labels) (Grid.of c.fromNs c.toNs dur) (unwrapValue E.num dur fn)
+      | .unwrap fn => if unwrapCounts fn then aggregate (·.labels) (Grid.of c.fromNs c.toNs dur) (Stages.unwrapValue E.num dur (dirFn c.orderAsc fn))
           (optByWithout E p.aggBy (stages E p.stages bs.flatten)) else []) := by
       simp only [rangeResult, evalPlan, hk]
       cases k <;> rfl
@@ -427,8 +558,8 @@ theorem plan_batching_independent (E : Env V) (h0 : E.o.isNum [] = false) (c : R
     rewrites labels (true of every split at `json`/`logfmt`), `MetricOk` follows from: series under the cap, and no two different label sets reaching an aggregator have the same fingerprint -/
 theorem metricOk_from_noCollision (E : Env V) (c : Read.Ctx) (p : Plan V) (es : List (Entry V)) (hm : p.agg.isSome = true)
     (hr : ∃ s ∈ p.stages, s.relabels = true)
-    (hcap : (firstBy (fun e : Entry V => e.fp) (aggInput E p es)).length ≤ c.maxSeries)
-    (hcapVec : (firstBy (fun e : Entry V => e.fp) (vecInput E c p es)).length ≤ c.maxSeries)
+    (hcap : (Stages.firstBy (fun e : Entry V => e.fp) (aggInput E p es)).length ≤ c.maxSeries)
+    (hcapVec : (Stages.firstBy (fun e : Entry V => e.fp) (vecInput E c p es)).length ≤ c.maxSeries)
     (hnc : NoCollision E ((aggInput E p es).map (·.labels)))
     (hncVec : NoCollision E ((vecInput E c p es).map (·.labels))) : MetricOk E c p es :=
   metricOk_of_noCollision E c p es hm hr hcap hcapVec hnc hncVec
@@ -658,13 +789,408 @@ theorem split_assumption_fresh_script :
   refine ⟨rfl, rfl, rfl, rfl, rfl, rfl, rfl, ?_⟩
   decide +kernel
 
+/-! ## 3b. the two engines on the same data: SQL semantics of the REAL statement, then the in-process stage
+
+`Sql.evalSelX` on `LogQL.planLogX` is the semantics of the statement `clickhouse_planner` really builds (byte-equal text and
+reflection dump: C07's `textx` / `semx` streams; `plan_correct_ext`). `scanRows` is what `ClickhouseGetterPlanner.Scan` makes
+of its rows. The theorems below run the in-process model (`Read.runStage(s)`) on those rows and compare with the rows of
+the statement for the longer pipeline — "the same entries whichever engine ran the stage". Fingerprint *values* differ by
+construction (cityHash64 of the sorted pairs vs `internal_planner.fingerprint`): `core` forgets them; entries with equal
+timestamps come in an order ClickHouse leaves open: the statements say "a permutation, both ordered by timestamp". -/
+
+/-- the rows ClickHouse returns for the stream selector followed by the stages `q` when the script is handed over
+    (`finalize = false`: ORDER BY timestamp, no LIMIT), as the getter scans them -/
+def chRows (N : NumOps V) (o : Oracles) (c : LogQL.Ctx) (d : LokiDb) (ms : List Matcher) (q : List StageX) : List (Entry V) :=
+  scanRows N (evalSelX o (d.toDb c) (planLogX c false ⟨ms, q⟩))
+
+/-- `planScript` (what `logql_transpiler_v2.Plan` sends to ClickHouse) of a script that is handed over after `q` -/
+theorem planScript_handover (c : LogQL.Ctx) (ms : List Matcher) (q : List StageX) (tag : String) (rest : List ScriptStage) :
+    planScript c ms (q.map .sql ++ .inproc tag :: rest) = planLogX c false ⟨ms, q⟩ := by
+  have h1 : sqlPrefix (q.map ScriptStage.sql ++ .inproc tag :: rest) = q := by
+    induction q with
+    | nil => rfl
+    | cons s r ih => simp only [List.map_cons, List.cons_append, sqlPrefix, ih]
+  have h2 : finalizes (q.map ScriptStage.sql ++ .inproc tag :: rest) = false := by
+    simp [finalizes, ScriptStage.breaks]
+  simp only [planScript, h1, h2]
+
+theorem chRows_proper (N : NumOps V) (o : Oracles) (c : LogQL.Ctx) (d : LokiDb) (ms : List Matcher) (q : List StageX) :
+    ∀ e ∈ chRows N o c d ms q, e.err = none := by
+  intro e he
+  simp only [chRows, scanRows, List.mem_map] at he
+  obtain ⟨r, _, rfl⟩ := he
+  rfl
+
+/-- one stage is its LogQL definition (the step of `stages_meet_logql`) -/
+theorem stage_meets_logql (E : Env V) (h0 : E.o.isNum [] = false) (s : StageK V) (es : List (Entry V))
+    (hp : ∀ e ∈ es, e.err = none) : stageFlat E s es = Stages.stage E s es :=
+  (stages_meet_logql E h0 [s] es hp).1
+
+/-- **engines_agree_stage — every stage both engines implement, any split point, all data.** Let ClickHouse run the stages
+    `q` (any pipeline of the C07 fragment whose label maps have no key twice) and hand its rows over in any batching; let
+    the in-process engine run `s` — a line filter `|= != |~ !~`, a label filter (string / numeric, and / or), `| json`
+    with path parameters naming pairwise different labels, or `| drop`. The entries it sends are a permutation of the rows
+    ClickHouse returns for `q` followed by that stage, both ordered by timestamp: the same lines with the same
+    timestamps and the same label sets. Hypotheses: `Bridge` (same RE2 / number oracles; ClickHouse's JSON path extraction
+    reads the decoder's tree), `LikeOk` (the LIKE shortcut decides as RE2), `SeriesTableOk` (label filters before the
+    first parser are decided on the series table), at most 63 matchers and distinct table names (`plan_correct_ext`). -/
+theorem engines_agree_stage (o : Oracles) (E : Env V) (hb : Bridge o E) (h0 : E.o.isNum [] = false)
+    (like : Bytes → Option LikeInfo) (hl : LikeOk o like) (c : LogQL.Ctx) (hn : c.namesOk) (d : LokiDb) (hd : SeriesTableOk c d)
+    (ms : List Matcher) (hm : ms.length ≤ 63) (q : List StageX) (hnd : ∀ e ∈ baseX o c d ms q, NodupKeys e.labels)
+    (s : StageK V) (sx : StageX) (hs : toStageX like s = some sx) (hok : SharedOk s)
+    (bs : Batches V) (hbs : bs.flatten = chRows E.num o c d ms q) :
+    ((runStage E s bs).flatten.map core).Perm ((chRows E.num o c d ms (q ++ [sx])).map core) ∧
+    (runStage E s bs).flatten.Pairwise (fun a b => entLe c a b = true) ∧
+    (chRows E.num o c d ms (q ++ [sx])).Pairwise (fun a b => entLe c a b = true) := by
+  have hrows : ∀ q', chRows E.num o c d ms q' = scanRows E.num (evalLogX o c false d ⟨ms, q'⟩) := by
+    intro q'
+    simp only [chRows, planLogX_correct o c hn d ⟨ms, q'⟩ false hm]
+  rw [batching_invariant_stage, hbs, stage_meets_logql E h0 s _ (chRows_proper E.num o c d ms q)]
+  refine ⟨?_, ?_, ?_⟩
+  · rw [hrows, hrows]
+    have h1 := (stage_perm E s _ _ (scanRows_evalLogX_perm E.num o c d ms q)).map core
+    have h2 := (bridge_stage o E hb like hl s sx hs hok (baseX o c d ms q) hnd).1
+    have h3 := ((scanRows_evalLogX_perm E.num o c d ms (q ++ [sx])).map core).symm
+    rw [baseX_snoc o c d hd] at h3
+    exact h1.trans (h2 ▸ h3)
+  · rw [hrows]
+    exact stage_sorted E c s _ (scanRows_evalLogX_sorted E.num o c d ms q)
+  · rw [hrows]
+    exact scanRows_evalLogX_sorted E.num o c d ms (q ++ [sx])
+
+/-- a prefix of shared stages over stored label documents without a repeated name yields no label map with a key twice -/
+theorem shared_prefix_nodup (o : Oracles) (E : Env V) (hb : Bridge o E) (like : Bytes → Option LikeInfo) (hl : LikeOk o like)
+    (c : LogQL.Ctx) (d : LokiDb) (hd : SeriesStoreOk o c d) (ms : List Matcher)
+    (ch : List (StageK V)) (chX : List StageX) (hch : ch.mapM (toStageX like) = some chX) (hok : ∀ s ∈ ch, SharedOk s) :
+    ∀ e ∈ baseX o c d ms chX, NodupKeys e.labels := by
+  rw [baseX_stages o c d hd.toSeriesTableOk]
+  exact (bridge_stages o E hb like hl ch chX hch hok _ (selX_nodup o c d hd ms)).2
+
+/-- **line filters** `|=`, `!=`, `|~`, `!~` — for `|~` / `!~` whichever way the ClickHouse planner renders the pattern
+    (`match(…)`, or LIKE / position when regexp/syntax reduces it to one literal: `like val`) -/
+theorem engines_agree_lineFilter_sql (o : Oracles) (E : Env V) (hb : Bridge o E) (h0 : E.o.isNum [] = false)
+    (like : Bytes → Option LikeInfo) (hl : LikeOk o like) (c : LogQL.Ctx) (hn : c.namesOk) (d : LokiDb) (hd : SeriesTableOk c d)
+    (ms : List Matcher) (hm : ms.length ≤ 63) (q : List StageX) (hnd : ∀ e ∈ baseX o c d ms q, NodupKeys e.labels)
+    (op : LineOp) (val : Bytes) (bs : Batches V) (hbs : bs.flatten = chRows E.num o c d ms q) :
+    ((runStage E (.line op val) bs).flatten.map core).Perm
+      ((chRows E.num o c d ms (q ++ [.fl (.line ⟨op, val, match op with | .re | .nre => like val | _ => none⟩)])).map core) :=
+  (engines_agree_stage o E hb h0 like hl c hn d hd ms hm q hnd (.line op val) _ rfl trivial bs hbs).1
+
+/-- **label filters** (string `= != =~ !~`, numeric `== != > >= < <=`, `and` / `or`), on stored or extracted labels -/
+theorem engines_agree_labelFilter_sql (o : Oracles) (E : Env V) (hb : Bridge o E) (h0 : E.o.isNum [] = false)
+    (like : Bytes → Option LikeInfo) (hl : LikeOk o like) (c : LogQL.Ctx) (hn : c.namesOk) (d : LokiDb) (hd : SeriesTableOk c d)
+    (ms : List Matcher) (hm : ms.length ≤ 63) (q : List StageX) (hnd : ∀ e ∈ baseX o c d ms q, NodupKeys e.labels)
+    (lc : LabelCond) (bs : Batches V) (hbs : bs.flatten = chRows E.num o c d ms q) :
+    ((runStage E (.labelFilter lc) bs).flatten.map core).Perm ((chRows E.num o c d ms (q ++ [.fl (.label lc)])).map core) :=
+  (engines_agree_stage o E hb h0 like hl c hn d hd ms hm q hnd (.labelFilter lc) _ rfl trivial bs hbs).1
+
+/-- **`| drop a, b="v"`** -/
+theorem engines_agree_drop (o : Oracles) (E : Env V) (hb : Bridge o E) (h0 : E.o.isNum [] = false)
+    (like : Bytes → Option LikeInfo) (hl : LikeOk o like) (c : LogQL.Ctx) (hn : c.namesOk) (d : LokiDb) (hd : SeriesTableOk c d)
+    (ms : List Matcher) (hm : ms.length ≤ 63) (q : List StageX) (hnd : ∀ e ∈ baseX o c d ms q, NodupKeys e.labels)
+    (ns vs : List Bytes) (bs : Batches V) (hbs : bs.flatten = chRows E.num o c d ms q) :
+    ((runStage E (.drop ns vs) bs).flatten.map core).Perm ((chRows E.num o c d ms (q ++ [.ch (.drop (ns.zip vs))])).map core) :=
+  (engines_agree_stage o E hb h0 like hl c hn d hd ms hm q hnd (.drop ns vs) _ rfl trivial bs hbs).1
+
+/-- **`| json n₁="p₁", …`: the statement both engines must satisfy** — whatever the parameter names -/
+def engines_agree_jsonParams_full : Prop :=
+  ∀ (o : Oracles) (E : Env Int) (_ : Bridge o E) (ps : List Ahead) (es : List EntryX) (_ : ∀ e ∈ es, NodupKeys e.labels),
+    ((stageX o es (.ch (.json (ps.map (fun a => (a.1, a.2.map toJArg)))))).map (scanX E.num)).map core =
+      (Stages.stage E (.parser (.jsonParams ps)) (es.map (scanX E.num))).map core
+
+/-- **`| json` with parameters naming pairwise different labels**: the two engines agree (after the three `fix:` commits:
+    every named label set, "" when the path leads nowhere or the line is not one JSON document, objects and arrays as
+    their JSON text) -/
+theorem engines_agree_jsonParams_partial (o : Oracles) (E : Env V) (hb : Bridge o E) (h0 : E.o.isNum [] = false)
+    (like : Bytes → Option LikeInfo) (hl : LikeOk o like) (c : LogQL.Ctx) (hn : c.namesOk) (d : LokiDb) (hd : SeriesTableOk c d)
+    (ms : List Matcher) (hm : ms.length ≤ 63) (q : List StageX) (hnd : ∀ e ∈ baseX o c d ms q, NodupKeys e.labels)
+    (ps : List Ahead) (hnames : (ps.map (·.1)).Nodup) (bs : Batches V) (hbs : bs.flatten = chRows E.num o c d ms q) :
+    ((runStage E (.parser (.jsonParams ps)) bs).flatten.map core).Perm
+      ((chRows E.num o c d ms (q ++ [.ch (.json (ps.map (fun a => (a.1, a.2.map toJArg))))])).map core) :=
+  (engines_agree_stage o E hb h0 like hl c hn d hd ms hm q hnd (.parser (.jsonParams ps)) _ rfl hnames bs hbs).1
+
+/-! ### the recorded finding: a label named by two parameters of one `| json` -/
+def cxDoc : JVal := .obj [] (.cons [98] (.str [49]) (.cons [97] (.str [50]) .nil))     -- {"b":"1","a":"2"}
+
+def fromJArg : JArg → PathSeg
+  | .key k => .key k
+  | .idx i => .idx (i - 1).toNat
+
+theorem fromJArg_toJArg (s : PathSeg) : fromJArg (toJArg s) = s := by
+  cases s with
+  | key k => rfl
+  | idx i => simp [toJArg, fromJArg]
+
+/-- a ClickHouse whose JSON functions read the document `{"b":"1","a":"2"}` out of every line -/
+def cxO : Oracles :=
+  { reMatch := fun _ _ => false, jsonLabels := fun _ => [], isNum := fun _ => false, numCmp := fun _ _ _ => false, lower := id,
+    jsonField := fun _ js => (lookupPath cxDoc (js.map fromJArg)).getD [] }
+
+def cxOps : NumOps Int :=
+  { zero := 0, one := 1, add := (· + ·), div := (· / ·), lt := fun a b => decide (a < b), le := fun a b => decide (a ≤ b),
+    eq := fun a b => decide (a = b), ofNat := fun n => n, parse := fun _ => none, durSeconds := fun d => d / 1000000000 }
+
+def cxE : Env Int :=
+  { o := cxO, num := cxOps, jsonDecode := fun _ => cxDoc, jsonValid := fun _ => true, logfmtDecode := fun _ => [],
+    tpl := fun _ _ => none, hash := fun _ => 0 }
+
+theorem cxBridge : Bridge cxO cxE := by
+  refine ⟨rfl, fun line p => ?_⟩
+  have hmap : (p.map toJArg).map fromJArg = p := by
+    rw [List.map_map]
+    conv => rhs; rw [← List.map_id p]
+    apply List.map_congr_left
+    intro s _
+    exact fromJArg_toJArg s
+  have hb : hasBad cxDoc = false := by decide
+  simp only [cxO, cxE, hmap, hb, Bool.not_false, Bool.and_self, if_true]
+
+/-- **engines_agree_jsonParams_counterexample** (kernel-checked): `| json p="a", p="b"` over `{"b":"1","a":"2"}`. ClickHouse
+    builds `mapFromArrays(['p','p'], ['2','1'])` — a Map holding `p` twice, which the getter's Go map reads as `p=1` — the
+    in-process engine ends with the value that comes last in the document, `p=2`. -/
+theorem engines_agree_jsonParams_counterexample : ¬ engines_agree_jsonParams_full := by
+  intro h
+  have h1 := h cxO cxE cxBridge [([112], [.key [97]]), ([112], [.key [98]])] [⟨7, 1, [], []⟩]
+    (by intro e he; simp only [List.mem_singleton] at he; subst he; simp [NodupKeys])
+  have h2 := congrArg (List.map (fun e : Entry Int => e.labels)) h1
+  revert h2
+  decide
+
+/-- what each engine yields in the counterexample -/
+example : (stageX cxO [⟨7, 1, [], []⟩] (.ch (.json [([112], [.key [97]]), ([112], [.key [98]])]))).map (·.labels) =
+      [[([112], [50]), ([112], [49])]] ∧
+    (Stages.stage cxE (.parser (.jsonParams [([112], [.key [97]]), ([112], [.key [98]])])) [scanX cxOps ⟨7, 1, [], []⟩]).map (·.labels) =
+      [[([112], [50])]] := by decide
+
+/-! ### (b) the split, end to end: SQL semantics of the real prefix statement, then the in-process suffix -/
+
+/-- **split_end_to_end.** Take any pipeline `ss` and the split `(ch, internal)` the split function produces, with `ch` in
+    the fragment both engines have and C07 proves the SQL of (line filters, label filters, `| json` with path parameters
+    naming pairwise different labels, `| drop`; `chX` = the same stages as the ClickHouse planner sees them). Let ClickHouse
+    evaluate the statement the real planner builds for the selector and `ch` (`planScript` of the script, `finalize = false`:
+    `planScript_handover`) by the SQL semantics, let the getter scan the rows and cut them into messages in any way, and let
+    the in-process engine run `internal` on them. The entries it sends are — as a multiset, both sides ordered by
+    timestamp, fingerprint values apart — the LogQL definition of the WHOLE pipeline `ss` (`LogQL.Stages.stages`) applied
+    to the entries the selector alone yields. One named hypothesis about the stored data: `SeriesStoreOk`. -/
+theorem split_end_to_end (o : Oracles) (E : Env V) (hb : Bridge o E) (h0 : E.o.isNum [] = false)
+    (like : Bytes → Option LikeInfo) (hl : LikeOk o like) (c : LogQL.Ctx) (hn : c.namesOk) (d : LokiDb) (hd : SeriesStoreOk o c d)
+    (ms : List Matcher) (hm : ms.length ≤ 63)
+    (ss ch internal : List (StageK V)) (hsplit : splitPipeline ss = (ch, some internal))
+    (chX : List StageX) (hch : ch.mapM (toStageX like) = some chX) (hok : ∀ s ∈ ch, SharedOk s)
+    (bs : Batches V) (hbs : bs.flatten = chRows E.num o c d ms chX) :
+    ((runStages E internal bs).flatten.map core).Perm ((Stages.stages E ss (chRows E.num o c d ms [])).map core) ∧
+    (runStages E internal bs).flatten.Pairwise (fun a b => entLe c a b = true) ∧
+    (Stages.stages E ss (chRows E.num o c d ms [])).Pairwise (fun a b => entLe c a b = true) := by
+  have hcat : ch ++ internal = ss := by
+    have := split_shape ss
+    rw [hsplit] at this
+    exact this.1
+  have hrows : ∀ q', chRows E.num o c d ms q' = scanRows E.num (evalLogX o c false d ⟨ms, q'⟩) := by
+    intro q'
+    simp only [chRows, planLogX_correct o c hn d ⟨ms, q'⟩ false hm]
+  have hpb : ∀ e ∈ bs.flatten, e.err = none := by rw [hbs]; exact chRows_proper E.num o c d ms chX
+  rw [batching_invariant_stages, (stages_meet_logql E h0 internal bs.flatten hpb).1, hbs]
+  refine ⟨?_, ?_, ?_⟩
+  · rw [hrows, hrows]
+    -- the rows of the prefix are C07's entries, stage by stage; C07's reading of the shared stages is C09's
+    have hpre := scanRows_evalLogX_perm E.num o c d ms chX
+    rw [baseX_stages o c d hd.toSeriesTableOk] at hpre
+    have hbr := (bridge_stages o E hb like hl ch chX hch hok (selX o c d ms) (selX_nodup o c d hd ms)).1
+    have hsel := scanRows_evalLogX_perm E.num o c d ms []
+    have h1 := (stages_perm E internal _ _ hpre).map core
+    have h2 := stages_core E internal _ _ hbr
+    have h3 : Stages.stages E internal (Stages.stages E ch ((selX o c d ms).map (scanX E.num))) =
+        Stages.stages E ss ((selX o c d ms).map (scanX E.num)) := by
+      rw [← stages_append, hcat]
+    have h4 := ((stages_perm E ss _ _ hsel).map core).symm
+    rw [h2, h3] at h1
+    exact h1.trans h4
+  · rw [hrows]
+    exact stages_sorted E c internal _ (scanRows_evalLogX_sorted E.num o c d ms chX)
+  · rw [hrows]
+    exact stages_sorted E c ss _ (scanRows_evalLogX_sorted E.num o c d ms [])
+
+/-- **split_end_to_end for ANY prefix of the C07 fragment** (also `| regexp`, repeated json names, … — stages the in-process
+    engine does not have, so the whole pipeline has no `LogQL.Stages` reading): the in-process suffix over the rows of the
+    real prefix statement is, as a multiset ordered by timestamp, C09's reading of the suffix applied to C07's reading of
+    the prefix (`stagesX`, stage by stage over the selector's entries — `baseX_stages`) as the getter scans it -/
+theorem split_end_to_end_any_prefix (o : Oracles) (E : Env V) (h0 : E.o.isNum [] = false)
+    (c : LogQL.Ctx) (hn : c.namesOk) (d : LokiDb) (hd : SeriesTableOk c d) (ms : List Matcher) (hm : ms.length ≤ 63)
+    (chX : List StageX) (internal : List (StageK V)) (bs : Batches V) (hbs : bs.flatten = chRows E.num o c d ms chX) :
+    ((runStages E internal bs).flatten).Perm
+      (Stages.stages E internal ((stagesX o chX (selX o c d ms)).map (scanX E.num))) ∧
+    (runStages E internal bs).flatten.Pairwise (fun a b => entLe c a b = true) := by
+  have hrows : chRows E.num o c d ms chX = scanRows E.num (evalLogX o c false d ⟨ms, chX⟩) := by
+    simp only [chRows, planLogX_correct o c hn d ⟨ms, chX⟩ false hm]
+  have hpb : ∀ e ∈ bs.flatten, e.err = none := by rw [hbs]; exact chRows_proper E.num o c d ms chX
+  rw [batching_invariant_stages, (stages_meet_logql E h0 internal bs.flatten hpb).1, hbs, hrows]
+  constructor
+  · have hpre := scanRows_evalLogX_perm E.num o c d ms chX
+    rw [baseX_stages o c d hd] at hpre
+    exact stages_perm E internal _ _ hpre
+  · exact stages_sorted E c internal _ (scanRows_evalLogX_sorted E.num o c d ms chX)
+
+/-- **(a) `FpFaithful` of the upstream, derived.** When the ClickHouse part of a split pipeline consists of filters (so the
+    rows carry their stream's fingerprint and labels: one `time_series` row per fingerprint), the fingerprint identifies
+    the label set among the rows the getter hands over — under `SeriesStoreOk` alone. This is the hypothesis
+    `metricPlan_meets_logql` / `plan_meets_logql` make about the upstream when the in-process part (split at
+    `line_format`) rewrites no labels; with a label-rewriting stage in process it follows from `NoCollision`
+    (`metricOk_from_noCollision`). -/
+theorem upstream_fpFaithful (N : NumOps V) (o : Oracles) (c : LogQL.Ctx) (hn : c.namesOk) (d : LokiDb) (hd : SeriesStoreOk o c d)
+    (ms : List Matcher) (hm : ms.length ≤ 63) (fs : List Stage) : FpFaithful (chRows N o c d ms (fs.map .fl)) := by
+  simp only [chRows, planLogX_correct o c hn d ⟨ms, fs.map .fl⟩ false hm]
+  exact rows_fpFaithful N o c d hd ms fs
+
+/-- **(a) end to end, under the single hypothesis `SeriesStoreOk`.** A metric query split at `line_format` whose in-process
+    part rewrites no labels (filters, `line_format`, `unwrap`; no `by`/`without` in process), its ClickHouse part a
+    prefix of filters: for every batching of the rows the real statement returns (SQL semantics), the messages the engine
+    sends are the LogQL reading of the in-process plan over those rows — "fingerprint ↔ label set", which
+    `metricPlan_meets_logql` assumed of the upstream, is now derived from the stored data (one label document per
+    fingerprint, fingerprint a function of the label set). Left as hypotheses: the series cap. -/
+theorem split_end_to_end_metric (o : Oracles) (E : Env V) (h0 : E.o.isNum [] = false) (c : LogQL.Ctx) (hn : c.namesOk) (d : LokiDb)
+    (hd : SeriesStoreOk o c d) (ms : List Matcher) (hm : ms.length ≤ 63) (fs : List Stage)
+    (rc : Read.Ctx) (p : Plan V) (hagg : p.agg.isSome = true)
+    (hnr : ∀ s ∈ p.stages, s.relabels = false) (hby : p.aggBy = none)
+    (hvec : ∀ fn bw cmp, p.vec = some (fn, bw, cmp) → bw = none)
+    (hcap : (Stages.firstBy (fun e : Entry V => e.fp) (aggInput E p (chRows E.num o c d ms (fs.map .fl)))).length ≤ rc.maxSeries)
+    (hcapVec : (Stages.firstBy (fun e : Entry V => e.fp) (vecInput E rc p (chRows E.num o c d ms (fs.map .fl)))).length ≤ rc.maxSeries)
+    (bs : Batches V) (hbs : bs.flatten = chRows E.num o c d ms (fs.map .fl)) :
+    runPlan E rc p bs = evalPlan E rc p (chRows E.num o c d ms (fs.map .fl)) := by
+  have hok : MetricOk E rc p bs.flatten := by
+    rw [hbs]
+    exact metricOk_of_upstream E rc p _ hagg hnr hby hvec hcap hcapVec (upstream_fpFaithful E.num o c hn d hd ms hm fs)
+  rw [metricPlan_meets_logql E h0 rc p hagg bs (by rw [hbs]; exact chRows_proper E.num o c d ms _) hok, hbs]
+
+/-! ### range aggregations: the in-process engine over ClickHouse's rows vs ClickHouse alone -/
+
+/-- **engines_agree_rangeAgg — `rate`, `count_over_time`, `bytes_rate`, `bytes_over_time`.** The same metric query
+    `fn({sel} filters [d])` answered two ways. In process: ClickHouse evaluates the statement of `{sel} filters` (SQL
+    semantics of the real statement, hand-over form), the getter scans the rows, any batching, `internal_planner` runs the
+    range aggregation (`Read.runPlan`). ClickHouse alone: its statement for the whole metric query returns
+    `LogQL.evalMetric` (C08 `plan_metric_correct`), whose points before the step stage are `LogQL.rangePoints`. For every
+    label set, bucket start and value the first has that sample iff the second has it for the stream with those labels.
+    Float64 idealised as exact rationals on both sides (as in C08); window of whole range buckets starting at a multiple
+    of the range (`FixPeriodPlanner` widens every request to such a window before either engine sees it,
+    C08 `window_widened_to_whole_buckets`); `SeriesStoreOk`; the series cap. -/
+theorem engines_agree_rangeAgg (parse : Bytes → Option Rat) (o : Oracles) (E : Env Rat) (hE : E.num = ratOps parse)
+    (h0 : E.o.isNum [] = false) (c : LogQL.Ctx) (hn : c.namesOk) (d : LokiDb) (hd : SeriesStoreOk o c d)
+    (ms : List Matcher) (hm : ms.length ≤ 63) (fs : List Stage)
+    (fn : Read.RangeFn) (fn' : LogQL.RangeFn) (hfn : toLra fn = some fn')
+    (dur k n : Nat) (hdur : 0 < dur) (hfrom : c.fromNs = (k : Int) * dur) (hto : c.toNs = c.fromNs + (n : Int) * dur)
+    (rc : Read.Ctx) (hrf : rc.fromNs = c.fromNs) (hrt : rc.toNs = c.toNs)
+    (hcap : (Stages.firstBy (fun e : Entry Rat => e.fp) (chRows E.num o c d ms (fs.map .fl))).length ≤ rc.maxSeries)
+    (bs : Batches Rat) (hbs : bs.flatten = chRows E.num o c d ms (fs.map .fl))
+    (l : Read.Labels) (t : Int) (v : Rat) :
+    (∃ e ∈ (runPlan E rc ⟨[], some (.range fn, dur), none, none, none⟩ bs).flatten, e.labels = l ∧ e.ts = t ∧ e.val = v) ↔
+    (∃ pt ∈ rangePoints o c d ⟨.lra fn', ⟨ms, fs⟩, dur, none, none, none⟩ c.fromNs c.toNs,
+        ∃ fp, pt.key = .int fp ∧ canonLabels (asMap (labelsOf o c d ⟨ms, fs⟩ fp)) = l ∧ pt.ts = t ∧ pt.value = v) := by
+  have hcounts : rangeCounts fn = true := by cases fn <;> simp [toLra, rangeCounts] at hfn ⊢
+  have hrun := split_end_to_end_metric o E h0 c hn d hd ms hm fs rc ⟨[], some (.range fn, dur), none, none, none⟩ rfl
+    (by intro s hs; cases hs) rfl (by intro _ _ _ h; cases h)
+    (by simpa [aggInput, Stages.stages] using hcap) (by simp [vecInput, Stages.firstBy]) bs hbs
+  rw [hrun]
+  have hrows : (chRows E.num o c d ms (fs.map .fl)).Perm ((baseX o c d ms (fs.map .fl)).map (scanX (ratOps parse))) := by
+    simp only [chRows, planLogX_correct o c hn d ⟨ms, fs.map .fl⟩ false hm, hE]
+    exact scanRows_evalLogX_perm (ratOps parse) o c d ms (fs.map .fl)
+  have := range_agree parse o c d hd ms fs fn fn' hfn dur k n hdur hfrom hto _ hrows l t v
+  simp only [evalPlan, Stages.stages, List.foldl_nil, hcounts, if_true, optCompare, hrf, hrt, hE] at this ⊢
+  exact this
+
+theorem compareVal_rat (parse : Bytes → Option Rat) (op : CmpOp) (x y : Rat) :
+    compareVal (ratOps parse) op x y = cmpHoldsR op x y := by
+  cases op <;> simp only [compareVal, cmpHoldsR, ratOps] <;> by_cases h : x = y <;> simp [h]
+
+/-- **… followed by a comparison** (`rate(…) > 2`): the in-process comparison stage keeps exactly the samples C08's
+    `cmpStage` keeps of `rangePoints` (the threshold read as the number the literal denotes) -/
+theorem engines_agree_rangeAgg_cmp (parse : Bytes → Option Rat) (o : Oracles) (E : Env Rat) (hE : E.num = ratOps parse)
+    (h0 : E.o.isNum [] = false) (c : LogQL.Ctx) (hn : c.namesOk) (d : LokiDb) (hd : SeriesStoreOk o c d)
+    (ms : List Matcher) (hm : ms.length ≤ 63) (fs : List Stage)
+    (fn : Read.RangeFn) (fn' : LogQL.RangeFn) (hfn : toLra fn = some fn')
+    (dur k n : Nat) (hdur : 0 < dur) (hfrom : c.fromNs = (k : Int) * dur) (hto : c.toNs = c.fromNs + (n : Int) * dur)
+    (rc : Read.Ctx) (hrf : rc.fromNs = c.fromNs) (hrt : rc.toNs = c.toNs)
+    (hcap : (Stages.firstBy (fun e : Entry Rat => e.fp) (chRows E.num o c d ms (fs.map .fl))).length ≤ rc.maxSeries)
+    (cm : Comparison) (bs : Batches Rat) (hbs : bs.flatten = chRows E.num o c d ms (fs.map .fl))
+    (l : Read.Labels) (t : Int) (v : Rat) :
+    (∃ e ∈ (runPlan E rc ⟨[], some (.range fn, dur), none, some (cm.op, numOf cm.val), none⟩ bs).flatten,
+        e.labels = l ∧ e.ts = t ∧ e.val = v) ↔
+    (∃ pt ∈ cmpStage (some cm) (rangePoints o c d ⟨.lra fn', ⟨ms, fs⟩, dur, none, none, none⟩ c.fromNs c.toNs),
+        ∃ fp, pt.key = .int fp ∧ canonLabels (asMap (labelsOf o c d ⟨ms, fs⟩ fp)) = l ∧ pt.ts = t ∧ pt.value = v) := by
+  have hcounts : rangeCounts fn = true := by cases fn <;> simp [toLra, rangeCounts] at hfn ⊢
+  have hrun := split_end_to_end_metric o E h0 c hn d hd ms hm fs rc ⟨[], some (.range fn, dur), none, some (cm.op, numOf cm.val), none⟩ rfl
+    (by intro s hs; cases hs) rfl (by intro _ _ _ h; cases h)
+    (by simpa [aggInput, Stages.stages] using hcap) (by simp [vecInput, Stages.firstBy]) bs hbs
+  rw [hrun]
+  have hrows : (chRows E.num o c d ms (fs.map .fl)).Perm ((baseX o c d ms (fs.map .fl)).map (scanX (ratOps parse))) := by
+    simp only [chRows, planLogX_correct o c hn d ⟨ms, fs.map .fl⟩ false hm, hE]
+    exact scanRows_evalLogX_perm (ratOps parse) o c d ms (fs.map .fl)
+  have hagree := range_agree parse o c d hd ms fs fn fn' hfn dur k n hdur hfrom hto _ hrows l t v
+  simp only [hE] at hagree
+  simp only [evalPlan, Stages.stages, List.foldl_nil, hcounts, if_true, optCompare, hrf, hrt, hE, cmpStage]
+  constructor
+  · rintro ⟨e, he, hel, het, hev⟩
+    simp only [List.mem_flatten, List.mem_map] at he
+    obtain ⟨b, ⟨b0, hb0, rfl⟩, heb⟩ := he
+    simp only [compareStage, List.mem_filter] at heb
+    obtain ⟨pt, hpt, fp, h1, h2, h3, h4⟩ := hagree.mp ⟨e, List.mem_flatten.mpr ⟨b0, hb0, heb.1⟩, hel, het, hev⟩
+    refine ⟨pt, List.mem_filter.mpr ⟨hpt, ?_⟩, fp, h1, h2, h3, h4⟩
+    rw [h4, ← hev, ← compareVal_rat parse]
+    exact heb.2
+  · rintro ⟨pt, hpt, fp, h1, h2, h3, h4⟩
+    obtain ⟨hpt1, hpt2⟩ := List.mem_filter.mp hpt
+    obtain ⟨e, he, hel, het, hev⟩ := hagree.mpr ⟨pt, hpt1, fp, h1, h2, h3, h4⟩
+    obtain ⟨b0, hb0, heb0⟩ := List.mem_flatten.mp he
+    refine ⟨e, ?_, hel, het, hev⟩
+    simp only [List.mem_flatten, List.mem_map]
+    refine ⟨_, ⟨b0, hb0, rfl⟩, ?_⟩
+    simp only [compareStage, List.mem_filter]
+    refine ⟨heb0, ?_⟩
+    rw [compareVal_rat parse, hev, ← h4]
+    exact hpt2
+
+/-! ### the recorded finding: a step above the range -/
+/-- `clickhouse_planner.StepFixPlanner` on the matrix of the range / vector aggregation (rows ordered by series, then time):
+    when the step is greater than the range, one row per (series, step bucket `intDiv(ts, step) * step`) with the value of
+    the earliest row of the bucket (`argMin(value, timestamp_ns)`), re-timed to the start of the bucket. The in-process
+    engine has no such stage (`internal_planner.MatrixStepPlanner` is never planned). -/
+def stepFixM (step d : Int) (es : List MEntry) : List MEntry :=
+  if step ≤ d then es
+  else es.foldl (fun acc e =>
+    match acc.getLast? with
+    | some l => if l.fp = e.fp ∧ l.ts = Int.tdiv e.ts step * step then acc
+                else acc ++ [{ e with ts := Int.tdiv e.ts step * step }]
+    | none => [{ e with ts := Int.tdiv e.ts step * step }]) []
+
+/-- the statement the property makes about the response of a metric query: after the matrix post-processors
+    (`ZeroEaterPlanner`, `FixPeriodPlanner`) it does not matter whether the matrix went through ClickHouse's step
+    re-bucketing (ClickHouse ran the whole query) or not (the aggregation ran in process) -/
+def step_independent_of_engine_full : Prop :=
+  ∀ (fromNs toNs step d : Int) (es : List MEntry),
+    postProcess fromNs toNs step d (stepFixM step d es) = postProcess fromNs toNs step d es
+
+/-- it holds whenever the step does not exceed the range (`StepFixPlanner` returns its input) -/
+theorem step_independent_of_engine_partial (fromNs toNs step d : Int) (hs : step ≤ d) (es : List MEntry) :
+    postProcess fromNs toNs step d (stepFixM step d es) = postProcess fromNs toNs step d es := by
+  simp [stepFixM, hs]
+
+/-- **step_independent_of_engine_counterexample** (kernel-checked): range 2, step 4, window [0, 8), one series with the
+    values 5 at 0 and 7 at 2. ClickHouse alone: the step bucket 0 keeps its earliest value — response `5 @ 0`. In process:
+    both range buckets reach `FixPeriodPlanner`, the later one overwrites — response `7 @ 0, 7 @ 4`. -/
+theorem step_independent_of_engine_counterexample : ¬ step_independent_of_engine_full := by
+  intro h
+  have := h 0 8 4 2 [⟨1, 0, 0, 5⟩, ⟨1, 0, 2, 7⟩]
+  revert this
+  decide
+
+example : postProcess 0 8 4 2 (stepFixM 4 2 [⟨1, 0, 0, 5⟩, ⟨1, 0, 2, 7⟩]) = [⟨1, 0, 0, 5⟩] ∧
+    postProcess 0 8 4 2 [⟨1, 0, 0, 5⟩, ⟨1, 0, 2, 7⟩] = [⟨1, 0, 0, 7⟩, ⟨1, 0, 4, 7⟩] := by decide
+
 /-! ## 4. series identity -/
 
 /-- **distinct_sets_distinct_series.** The texts handed to CityHash for the labels of a set determine the set:
     two label lists whose hashed texts agree as multisets (the fingerprint only sees the multiset: it sums, xors
     and multiplies the hashes) are the same set of labels. So distinct label sets can get the same fingerprint
     only through a collision of the hash itself. (Names shorter than 2⁶⁴ bytes: every Go string.) -/
-theorem distinct_sets_distinct_series (a b : Labels)
+theorem distinct_sets_distinct_series (a b : Read.Labels)
     (ha : ∀ kv ∈ a, kv.1.length < 2 ^ 64) (hb : ∀ kv ∈ b, kv.1.length < 2 ^ 64)
     (h : (a.map encodePair).Perm (b.map encodePair)) : a.Perm b :=
   perm_of_map_perm encodePair a b (fun x hx y hy e => encodePair_inj x y (ha x hx) (hb y hy) e) h
@@ -711,14 +1237,16 @@ theorem same_labels_same_series (E : Env V) (s : StageK V)
 /-! ## 5. facts regenerated from the source (T) -/
 
 /-- the decisive tests of the Go code are the ones the model mirrors: `min_over_time` replaces on `>`, `max` on
-    `<`, `first_over_time` on an empty bucket; the range aggregations skip buckets outside the array (the vector
+    `<`, `first_over_time` on an empty bucket and on every entry when the rows arrive newest first (`!ctx.OrderASC`),
+    `last_over_time` on an empty bucket and on every entry when they arrive oldest first (`dirFn`); the range aggregations skip buckets outside the array (the vector
     aggregation's own test is not listed: its input timestamps are bucket starts of the same grid); limit 0 passes
     everything; the fingerprint hashes length, name, value; the split tests; the switch cases. The thresholds
     (`optimizerFlush`, `maxSeries`) are parameters of the theorems above, which hold for every value. -/
 theorem gen_facts :
     Gen.InternalPlanner.unwrapCond_min_over_time = "stream.values[idx] > entry.Value || stream.values[idx+1] == 0" ∧
     Gen.InternalPlanner.unwrapCond_max_over_time = "stream.values[idx] < entry.Value || stream.values[idx+1] == 0" ∧
-    Gen.InternalPlanner.unwrapCond_first_over_time = "stream.values[idx+1] == 0" ∧
+    Gen.InternalPlanner.unwrapCond_first_over_time = "stream.values[idx+1] == 0 || !ctx.OrderASC" ∧
+    Gen.InternalPlanner.unwrapCond_last_over_time = "stream.values[idx+1] == 0 || ctx.OrderASC" ∧
     Gen.InternalPlanner.vecCond_min = "stream.values[idx*2] > entry.Value || stream.values[idx*2+1] == 0" ∧
     Gen.InternalPlanner.vecCond_max = "stream.values[idx*2] < entry.Value || stream.values[idx*2+1] == 0" ∧
     Gen.InternalPlanner.lraBounds = "idx < 0 || idx+1 >= int64(len(stream.values))" ∧
@@ -733,14 +1261,35 @@ theorem gen_facts :
     Gen.InternalPlanner.breakConds = ["n != nil && !reflect.ValueOf(n).IsNil()",
       "ppl.Parser != nil && ((ppl.Parser.Fn == \"json\" && len(ppl.Parser.ParserParams) == 0) || ppl.Parser.Fn == \"logfmt\")",
       "ppl.LineFormat != nil", "ppl.LabelFormat != nil"] :=
-  ⟨rfl, rfl, rfl, rfl, rfl, rfl, rfl, rfl, rfl, rfl, rfl, rfl, rfl, rfl⟩
+  ⟨rfl, rfl, rfl, rfl, rfl, rfl, rfl, rfl, rfl, rfl, rfl, rfl, rfl, rfl, rfl⟩
+
+/-- **no query answers with an empty matrix for lack of a case.** The function names `LRAPlanner.Process` and
+    `UnwrapAggPlanner.Process` admit are exactly the names `addValue` has a case for — the ones the bucket machine counts
+    (`rangeCounts` / `unwrapCounts`, for which `metricPlan_meets_logql` gives the LogQL value); every other name
+    (`stddev_over_time`, `stdvar_over_time`, which ClickHouse computes with `stddevPop` / `varPop`; `sum_over_time`
+    without `| unwrap`, …) is refused with NotSupported, like `stddev` / `stdvar` / `topk` / `quantile_over_time`. -/
+theorem unsupported_functions_refused :
+    Gen.InternalPlanner.lraAdmitted = Gen.InternalPlanner.lraCases ∧
+    Gen.InternalPlanner.unwrapAdmitted = Gen.InternalPlanner.unwrapCases ∧
+    Gen.InternalPlanner.lraRefusal = ["return nil, &shared.NotSupportedError{Msg: l.Func + \" without | unwrap is not supported yet.\"}"] ∧
+    Gen.InternalPlanner.unwrapRefusal = ["return nil, &shared.NotSupportedError{Msg: l.Function + \" over an unwrapped value is not supported yet.\"}"] ∧
+    (∀ (p : Plan V) fn dur, p.agg = some (.range fn, dur) → (p.accepted = rangeCounts fn)) ∧
+    (∀ (p : Plan V) fn dur, p.agg = some (.unwrap fn, dur) → (p.accepted = unwrapCounts fn)) := by
+  refine ⟨rfl, rfl, rfl, rfl, ?_, ?_⟩
+  · intro p fn dur h
+    cases fn <;> simp [Plan.accepted, h, rangeCounts]
+  · intro p fn dur h
+    cases fn <;> simp [Plan.accepted, h, unwrapCounts]
 
 /-- the parameter handling of the parser stage as the source has it now — what `paramFields`, `jsonParams`,
     `aheadsFor`, `setAll`, `logfmtFields`, `parserFn` mirror: `logfmtFields` is filled only when there are parameters,
     for every parameter in order, skipping empty paths, only for a leading *string* segment, by map assignment
-    (later wins); `jsonWithParams` makes one ahead per parameter in parameter order; `filterAhead` drops aheads whose
-    path is exhausted and compares the first segment by type and value; a scalar is given to the aheads whose path
-    is exhausted; members nobody asks for are skipped; paths are cut by one segment on the way down; `HandleLogfmt`
+    (later wins); `jsonWithParams` makes one ahead per parameter in parameter order, walks only a line `jx.Valid` accepts,
+    writes what it finds to a map of its own and then assigns `found[label]` ("" when absent) to every named label;
+    `filterAhead` drops aheads whose path is exhausted and compares the first segment by type and value; an object or
+    an array some path ends at is read as a whole (`dec.Raw()`), its text given to the exhausted aheads, the others
+    followed inside it; a scalar is given to the aheads whose path is exhausted; members nobody asks for are skipped;
+    paths are cut by one segment on the way down; `HandleLogfmt`
     consults the map when it is non-nil and ignores unnamed keys; `OnEntry` passes marker entries, keeps the labels
     extracted before a parse error and recomputes the fingerprint in every case. -/
 theorem gen_facts_params :
@@ -753,8 +1302,17 @@ theorem gen_facts_params :
     Gen.InternalParams.aheadsRange = "i, path := range p.parameterTypedValues" ∧
     Gen.InternalParams.aheadsBody = ["name := p.ParameterNames[i]", "pa = append(pa, pathAhead{label: name, path: path})"] ∧
     Gen.InternalParams.filterAheadConds = ["len(a.path) == 0", "typeCmp[int](a.path[0], key) || typeCmp[string](a.path[0], key)"] ∧
-    Gen.InternalParams.setConds = ["len(a.path) == 0", "len(a.path) == 0"] ∧
-    Gen.InternalParams.setAssigns = ["(*j.labels)[a.label] = val", "(*j.labels)[a.label] = val"] ∧
+    Gen.InternalParams.jsonParamsConds = ["jx.Valid([]byte(str))", "err != nil"] ∧
+    Gen.InternalParams.jsonParamsFound = ["found := make(map[string]string, len(pa))", "found = nil",
+      "jpp := &jsonPathProcessor{labels: &found}"] ∧
+    Gen.InternalParams.jsonParamsFinalRange = "_, a := range pa" ∧
+    Gen.InternalParams.jsonParamsFinalBody = ["(*labels)[a.label] = found[a.label]"] ∧
+    Gen.InternalParams.processConds = ["next == jx.Object || next == jx.Array", "len(a.path) > 0", "len(deeper) < len(aheads)",
+      "err != nil", "len(a.path) == 0", "len(deeper) == 0", "err != nil", "len(a.path) == 0", "err != nil", "len(a.path) == 0"] ∧
+    Gen.InternalParams.processDeeper = ["deeper = append(deeper, a)", "raw, err := dec.Raw()",
+      "dec, aheads = jx.DecodeBytes(raw), deeper", "raw, err := dec.Raw()"] ∧
+    Gen.InternalParams.setConds = ["len(a.path) > 0", "len(a.path) == 0", "len(a.path) == 0", "len(a.path) == 0"] ∧
+    Gen.InternalParams.setAssigns = ["(*j.labels)[a.label] = raw.String()", "(*j.labels)[a.label] = val", "(*j.labels)[a.label] = val"] ∧
     Gen.InternalParams.processObjectConds = ["len(aheads) == 0", "len(_aheads) == 0"] ∧
     Gen.InternalParams.processArrayConds = ["len(aheads) == 0", "len(_aheads) == 0"] ∧
     Gen.InternalParams.processObjectCut = ["pathAhead{label: a.label, path: a.path[1:]}"] ∧
@@ -765,7 +1323,7 @@ theorem gen_facts_params :
     Gen.InternalParams.parserOnEntry = ["if entry.Err != nil { return nil }",
       "labels, err := parser(entry.Message, &entry.Labels)", "if err == nil { entry.Labels = labels }",
       "entry.Fingerprint = fingerprint(entry.Labels)", "return nil"] :=
-  ⟨rfl, rfl, rfl, rfl, rfl, rfl, rfl, rfl, rfl, rfl, rfl, rfl, rfl, rfl, rfl, rfl, rfl⟩
+  ⟨rfl, rfl, rfl, rfl, rfl, rfl, rfl, rfl, rfl, rfl, rfl, rfl, rfl, rfl, rfl, rfl, rfl, rfl, rfl, rfl, rfl, rfl, rfl⟩
 
 /-! ## non-vacuity -/
 section examples
@@ -808,8 +1366,9 @@ example : SeriesTableOk ⟨0, 1, 0, false, 1, false, "g", "s", "t", "t"⟩ ⟨[]
 def exEnv : Env Int where
   o := { reMatch := fun _ _ => false, jsonLabels := fun _ => [], isNum := fun _ => false, numCmp := fun _ _ _ => false, lower := id }
   num := intOps
-  jsonDecode m := if m = [1] then .obj (.cons [98] (.raw [49]) (.cons [97] (.raw [50]) .nil))
-                  else .obj (.cons [97] (.raw [50]) (.cons [98] (.raw [49]) .nil))
+  jsonDecode m := if m = [1] then .obj [] (.cons [98] (.raw [49]) (.cons [97] (.raw [50]) .nil))
+                  else .obj [] (.cons [97] (.raw [50]) (.cons [98] (.raw [49]) .nil))
+  jsonValid _ := true
   logfmtDecode _ := []
   tpl _ _ := none
   hash b := b.foldl (fun h c => h * 31 + c.toUInt64) 7
@@ -821,10 +1380,10 @@ def exE1 : Entry Int := ⟨10, 7, [([120], [121])], [1], 0, none⟩
 def exE2 : Entry Int := ⟨20, 7, [([120], [121])], [2], 0, none⟩
 def exInput : List (Entry Int) := [exE1, exE2]
 
-example : MetricOk exEnv ⟨0, 120, 0, 3000, 2000⟩ (exPlan (some (.sum, none, none))) exInput := by
+example : MetricOk exEnv ⟨0, 120, 0, 3000, 2000, true⟩ (exPlan (some (.sum, none, none))) exInput := by
   refine ⟨by decide +kernel, ?_, by decide +kernel, ?_⟩ <;> unfold FpFaithful <;> decide +kernel
 
-example : ((runPlan exEnv ⟨0, 120, 0, 3000, 2000⟩ (exPlan none) [[exE1], [], [exE2]]).flatten.map
+example : ((runPlan exEnv ⟨0, 120, 0, 3000, 2000, true⟩ (exPlan none) [[exE1], [], [exE2]]).flatten.map
     (fun e => (e.labels.get [112], e.val))) = [([50], 1), ([49], 1)] := by decide +kernel
 
 /-- `JsonPathParamToTypedArray` as modelled (`Read.parsePath`): `x.z[0]`, `["k 1"]`, `a b` (the dot is optional), and
